@@ -64,7 +64,9 @@ def orphansKilledEachRound : List Out → Bool
      | .snap l os => os.all (fun t => (sinceReconcile l older).any (isReconKill l t))
      | _ => true) && orphansKilledEachRound older
 
-/-- Owned spared: no KILL caused by a reconciliation update hits a task that is locked in the roster. -/
+/-- Owned spared: no KILL caused by a reconciliation update hits an owned task — one that is locked in the
+    roster, or held by a live environment (the `owned` flag of the KILL; the driver derives it from GetTasks AND
+    from what GetEnvironments says the environments hold, so a task the roster has lost is still "owned"). -/
 def ownedSpared (log : List Out) : Bool :=
   log.all (fun o => match o with | .kill _ _ (.update .recon) owned => !owned | _ => true)
 
@@ -99,6 +101,9 @@ def codeCfg : Cfg :=
     reasonGuard := (Gen.C18.killGuard == "reason+state" || Gen.C18.killGuard == "reason+state+notInRoster") &&
                    Gen.C18.killReason == "REASON_RECONCILIATION" && Gen.C18.killCallsInHandleMessage == 1 && Gen.C18.elseUpdatesStatus
     killStates := Gen.C18.killStates.filterMap stateOfName
-    rosterGuard := Gen.C18.killGuard == "reason+state+notInRoster" }
+    rosterGuard := Gen.C18.killGuard == "reason+state+notInRoster"
+    snapshotRewrite := !(Gen.C18.killTasksRosterWrites == "filter-then-append" &&
+                         Gen.C18.rosterWriteSites == ["acquireTasks:append", "doKillTasks:append", "doKillTasks:updateTasks",
+                                                      "doKillTasks:updateTasks"]) }
 
 end Spec.C18
